@@ -115,10 +115,10 @@ pub fn factory_with(cfg: DustDdsConfiguration) -> &'static Factory {
     .0
 }
 
-/// A scenario of this engine needs well under 10^5 executor polls (a 100 s lease expiry ~ 2*10^4); a
-/// worker that keeps re-running at one virtual instant is reported as a livelock after 3*10^5.
+/// A scenario of this engine needs well under 10^5 executor polls (a 100 s lease expiry with 50 ms announcements ~ 8*10^3); a
+/// worker that keeps re-running at one virtual instant is reported as a livelock after 10^5.
 pub fn limit_steps() {
-    with_world(|w| w.step_limit = 300_000);
+    with_world(|w| w.step_limit = 100_000);
 }
 
 pub fn time_of_ns(ns: u64) -> Time {
